@@ -234,6 +234,41 @@ func (vfs *MemFS) createSymlink(parent *dirNode, name, link string) *symlinkNode
 	return child
 }
 
+// lockedNode returns the node named name, locked, once it is known to be still in its directory :
+// the directory stays read locked, so that the node can't be removed or replaced, until unlock is called.
+func (vfs *MemFS) lockedNode(name string, mode slMode) (child node, unlock func(), err error) {
+	for {
+		parent, child, pi, err := vfs.searchNode(name, mode)
+		if err != vfs.err.FileExists || child == nil {
+			return nil, nil, err
+		}
+
+		if child == node(parent) {
+			// the root directory.
+			child.Lock()
+
+			return child, child.Unlock, nil
+		}
+
+		verifYield(&parent.mu, false)
+		parent.mu.RLock()
+
+		if parent.removed || parent.children[pi.Part()] != child {
+			// the entry has been changed by another goroutine since the path walk.
+			parent.mu.RUnlock()
+
+			continue
+		}
+
+		child.Lock()
+
+		return child, func() {
+			child.Unlock()
+			parent.mu.RUnlock()
+		}, nil
+	}
+}
+
 // unlink deletes the node child, whose entry has just been removed from its parent directory.
 func (vfs *MemFS) unlink(child node) {
 	child.Lock()
